@@ -393,7 +393,8 @@ def cases(draw, deep: bool = False, with_bad: bool = False):
         hm, hv = refhttp.strict_read(head_only)
         # "reject" only when the head itself is bad: a defect in the body may be seen after a response went out
         case["bad_verdict"] = "reject" if (k >= 0 and verdict[0] == "reject" and not msgs and hv[0] == "reject") else "undecided"
-        case["bad_n"] = len(msgs) + 1
+        # a defect that sits in the body is seen after the head was answered: that element can get two responses
+        case["bad_n"] = len(msgs) + 1 + (1 if (verdict[0] == "reject" and hv[0] != "reject") else 0)
     case["burst"] = draw(st.sampled_from([1, 1, 2, 3]))
     if any(r.get("upgrade") for r in reqs) and draw(st.booleans()):
         # a small read buffer: what is pipelined behind a (declined) upgrade request pauses reading mid-request
